@@ -361,10 +361,23 @@ Definition serve (cfg : config) (t : target) (uuid : str) (r : request) : outcom
 (* The Host the upstream receives: the rewritten r.Host; on the websocket path
    Request.Write falls back to r.URL.Host (= the target's) when r.Host is empty, on the
    ReverseProxy path the transport is handed the request with Host as it is. *)
+(* net/http removeZone (Request.Write, modelled): "[fe80::1%eth0]:80" is written as "[fe80::1]:80" *)
+Definition remove_zone (host : str) : str :=
+  if starts_bracket host then
+    match last_index_byte host 93 with
+    | None => host
+    | Some i =>
+        match last_index_byte (firstn i host) 37 with
+        | None => host
+        | Some j => firstn j host ++ skipn i host
+        end
+    end
+  else host.
+
 Definition upstream_host (cfg : config) (t : target) (uuid : str) (r : request) : outcome str :=
   do h <- add_headers cfg (t_strip t) (req_with_reqid cfg uuid r);
   let host := rewritten_host t (r_host r) in
-  Ok (if takes_ws_path h && sempty host then t_url_host t else host).
+  Ok (if takes_ws_path h then remove_zone (if sempty host then t_url_host t else host) else host).
 
 (* ---------------- before the repair afbb806 (F-C08-2, fixed) ----------------
    addHeaders and scheme recognised only the lower-case spelling while ServeHTTP sent
